@@ -100,13 +100,29 @@ def rep(x, how):
     return x
 
 
+def _wavdir():
+    """Scratch directory for the wav fixtures of this run: created by the first process that needs it, handed to
+    worker / helper processes through the environment, removed when the creating process exits."""
+    import atexit
+    import os
+    import shutil
+    import tempfile
+    d = os.environ.get('PSI_STIM_WAVDIR')
+    if not d or not os.path.isdir(d):
+        d = tempfile.mkdtemp(prefix='psi_hstim_')
+        os.environ['PSI_STIM_WAVDIR'] = d
+        pid = os.getpid()
+        atexit.register(lambda: shutil.rmtree(d, ignore_errors=True) if os.getpid() == pid else None)
+    return d
+
+
 def wav_path(node):
     """A wav file with deterministic content (written once per content, atomically)."""
     import os
     import tempfile
     from scipy.io import wavfile
     name = 'psi_hstim_%d_%d_%s_%d_%d.wav' % (os.getuid(), node['n'], node['wdtype'], node['file_fs'], node['seed'])
-    path = os.path.join(tempfile.gettempdir(), name)
+    path = os.path.join(_wavdir(), name)
     if not os.path.exists(path):
         x = np.random.RandomState(node['seed']).uniform(-1, 1, node['n'])
         data = (x * 30000).astype(np.int16) if node['wdtype'] == 'i2' else x.astype(np.float32)
